@@ -7,6 +7,7 @@ import Mathlib.Tactic.Ring
 import Mathlib.Tactic.Linarith
 import Mathlib.Tactic.FieldSimp
 import Mathlib.Tactic.Positivity
+import Mathlib.Tactic.LinearCombination
 import Mathlib.Data.Rat.Defs
 import Mathlib.Algebra.Order.Field.Rat
 import Mathlib.Analysis.SpecialFunctions.Sqrt
@@ -608,5 +609,154 @@ theorem inside2d_of_bary (P Q S c : P2) (wP wQ wS : Rat) (hsum : wP + wQ + wS = 
     have a2 := mul_pos hP h
     have a3 := mul_pos hQ h
     simp [a1, a2, a3]
+
+/-! ### extrude_mdg coupling, Cartesian sweep, face orientation -/
+
+theorem mem_coupleLayers (ncLow nfHigh L : Nat) (pairs : List (Nat × Nat)) (c' f' : Nat) :
+    (c', f') ∈ coupleLayers ncLow nfHigh L pairs ↔
+      ∃ c f k, (c, f) ∈ pairs ∧ k < L ∧ c' = c + k * ncLow ∧ f' = f + k * nfHigh := by
+  unfold coupleLayers
+  simp only [List.mem_flatten, List.mem_map]
+  constructor
+  · rintro ⟨l, ⟨⟨c, f⟩, hp, rfl⟩, hmem⟩
+    simp only [List.mem_map, List.mem_range, Prod.mk.injEq] at hmem
+    obtain ⟨k, hk, h1, h2⟩ := hmem
+    exact ⟨c, f, k, hp, hk, h1.symm, h2.symm⟩
+  · rintro ⟨c, f, k, hp, hk, rfl, rfl⟩
+    refine ⟨_, ⟨(c, f), hp, rfl⟩, ?_⟩
+    simp only [List.mem_map, List.mem_range]
+    exact ⟨k, hk, rfl⟩
+
+theorem mem_otherSide (nfHigh L : Nat) (pairs : List (Nat × Nat)) (f' : Nat) :
+    f' ∈ otherSide nfHigh L pairs ↔
+      ∃ c f k, (c, f) ∈ pairs ∧ aboveMedian pairs f = true ∧ k < L ∧ f' = f + k * nfHigh := by
+  unfold otherSide arange
+  simp only [List.mem_flatten, List.mem_map, List.mem_filter]
+  constructor
+  · rintro ⟨l, ⟨⟨c, f⟩, ⟨hp, ha⟩, rfl⟩, hmem⟩
+    simp only [List.mem_map, List.mem_range] at hmem
+    obtain ⟨k, hk, heq⟩ := hmem
+    exact ⟨c, f, k, hp, ha, hk, heq.symm⟩
+  · rintro ⟨c, f, k, hp, ha, hk, rfl⟩
+    refine ⟨_, ⟨(c, f), ⟨hp, ha⟩, rfl⟩, ?_⟩
+    simp only [List.mem_map, List.mem_range]
+    exact ⟨k, hk, rfl⟩
+
+theorem layer_decomp (nc : Nat) (c k c' k' : Nat) (hc : c < nc) (hc' : c' < nc)
+    (h : c + k * nc = c' + k' * nc) : c = c' ∧ k = k' := by
+  have hnc : 0 < nc := by omega
+  have hk : k = k' := by
+    have e1 : (c + k * nc) / nc = k := by
+      rw [Nat.add_mul_div_right _ _ hnc, Nat.div_eq_of_lt hc]; simp
+    have e2 : (c' + k' * nc) / nc = k' := by
+      rw [Nat.add_mul_div_right _ _ hnc, Nat.div_eq_of_lt hc']; simp
+    rw [← e1, ← e2, h]
+  subst hk
+  exact ⟨by omega, rfl⟩
+
+theorem nodup_getElem?_inj {α : Type} : ∀ (l : List α), l.Nodup → ∀ (a b : Nat) (x : α),
+    l[a]? = some x → l[b]? = some x → a = b := by
+  intro l
+  induction l with
+  | nil => intro _ a b x h; simp at h
+  | cons y ys ih =>
+    intro hnd a b x ha hb
+    rw [List.nodup_cons] at hnd
+    cases a with
+    | zero =>
+      cases b with
+      | zero => rfl
+      | succ b =>
+        simp only [List.getElem?_cons_zero, Option.some.injEq, List.getElem?_cons_succ] at ha hb
+        subst ha
+        exact absurd (List.mem_of_getElem? hb) hnd.1
+    | succ a =>
+      cases b with
+      | zero =>
+        simp only [List.getElem?_cons_zero, Option.some.injEq, List.getElem?_cons_succ] at ha hb
+        subst hb
+        exact absurd (List.mem_of_getElem? ha) hnd.1
+      | succ b =>
+        simp only [List.getElem?_cons_succ] at ha hb
+        rw [ih hnd.2 a b x ha hb]
+
+/-- normal of the model's vertical face: `±(B - A) × (0, 0, z1 - z0)` -/
+theorem vertFace_normal (A B : P2) (z0 z1 : Rat) (flip : Bool) :
+    faceNormal (vertFaceCoords A B z0 z1 flip)
+      = V3.smul (if flip then -1 else 1) (V3.cross ⟨B.x - A.x, B.y - A.y, 0⟩ ⟨0, 0, z1 - z0⟩) := by
+  cases flip <;> apply V3.ext' <;>
+    simp [vertFaceCoords, faceNormal, V3.cross, V3.sub, V3.smul] <;> ring
+
+theorem signed_normal_core (A B pc : P2) (s ε h habs : Rat) (hpos : 0 < habs)
+    (hne : area2 A B pc ≠ 0)
+    (key : s * ε * h = if 0 < area2 A B pc then habs else -habs) :
+    V3.smul s (V3.smul ε (V3.cross ⟨B.x - A.x, B.y - A.y, 0⟩ ⟨0, 0, h⟩))
+      = (if 0 < area2 A B pc then V3.cross ⟨B.x - A.x, B.y - A.y, 0⟩ ⟨0, 0, habs⟩
+         else V3.cross ⟨A.x - B.x, A.y - B.y, 0⟩ ⟨0, 0, habs⟩) ∧
+    0 < s * ((V3.smul ε (V3.cross ⟨B.x - A.x, B.y - A.y, 0⟩ ⟨0, 0, h⟩)).x * (A.x - pc.x)
+          + (V3.smul ε (V3.cross ⟨B.x - A.x, B.y - A.y, 0⟩ ⟨0, 0, h⟩)).y * (A.y - pc.y)) ∧
+    (V3.smul ε (V3.cross ⟨B.x - A.x, B.y - A.y, 0⟩ ⟨0, 0, h⟩)).z = 0 := by
+  have hdot : s * ((V3.smul ε (V3.cross ⟨B.x - A.x, B.y - A.y, 0⟩ ⟨0, 0, h⟩)).x * (A.x - pc.x)
+          + (V3.smul ε (V3.cross ⟨B.x - A.x, B.y - A.y, 0⟩ ⟨0, 0, h⟩)).y * (A.y - pc.y))
+      = (s * ε * h) * area2 A B pc := by
+    simp only [V3.smul, V3.cross, area2]; ring
+  refine ⟨?_, ?_, by simp [V3.smul, V3.cross]⟩
+  · by_cases ha : 0 < area2 A B pc
+    · rw [if_pos ha] at key ⊢
+      apply V3.ext' <;> simp only [V3.smul, V3.cross] <;>
+        first
+          | linear_combination (B.y - A.y) * key
+          | linear_combination (-(B.x - A.x)) * key
+          | ring
+    · rw [if_neg ha] at key ⊢
+      apply V3.ext' <;> simp only [V3.smul, V3.cross] <;>
+        first
+          | linear_combination (B.y - A.y) * key
+          | linear_combination (-(B.x - A.x)) * key
+          | ring
+  · rw [hdot, key]
+    by_cases ha : 0 < area2 A B pc
+    · rw [if_pos ha]; exact mul_pos hpos ha
+    · rw [if_neg ha]
+      have : area2 A B pc < 0 := lt_of_le_of_ne (not_lt.mp ha) hne
+      nlinarith
+
+
+theorem facesOrdered_vertical_get (b : Base) (neg : Bool) (layers k f : Nat) (hk : k < layers)
+    (hf : f < b.fn.length) :
+    (verticalOrdered b neg layers)[k * b.fn.length + f]? =
+      ((faceFlips b neg)[f]?).map (fun abf =>
+        verticalFaceOrdered b.nodes.length abf.1 abf.2.1 abf.2.2 k) := by
+  have hlen : (faceFlips b neg).length = b.fn.length := by simp [faceFlips]
+  unfold verticalOrdered
+  rw [flatten_get_blocks b.fn.length _ _ k f hf]
+  · simp [List.getElem?_range hk]
+  · intro blk hblk
+    simp only [List.mem_map] at hblk
+    obtain ⟨_, _, rfl⟩ := hblk
+    simp [hlen]
+
+theorem verticalOrdered_length (b : Base) (neg : Bool) (layers : Nat) :
+    (verticalOrdered b neg layers).length = layers * b.fn.length := by
+  have hlen : (faceFlips b neg).length = b.fn.length := by simp [faceFlips]
+  unfold verticalOrdered
+  rw [flatten_length_blocks b.fn.length]
+  · simp
+  · intro blk hblk
+    simp only [List.mem_map] at hblk
+    obtain ⟨_, _, rfl⟩ := hblk
+    simp [hlen]
+
+theorem horizontalOrdered_get (b : Base) (neg : Bool) (L j c : Nat) (hj : j < L) (hc : c < b.cf.length) :
+    (horizontalOrdered b neg L)[j * b.cf.length + c]? =
+      ((cellCycles b neg)[c]?).map (fun cyc => cyc.map (· + j * b.nodes.length)) := by
+  have hlen : (cellCycles b neg).length = b.cf.length := by simp [cellCycles]
+  unfold horizontalOrdered
+  rw [flatten_get_blocks b.cf.length _ _ j c hc]
+  · simp [List.getElem?_range hj]
+  · intro blk hblk
+    simp only [List.mem_map] at hblk
+    obtain ⟨_, _, rfl⟩ := hblk
+    simp [hlen]
 
 end PorepyVerif.C23
